@@ -314,6 +314,12 @@ class Scheduler:
         global CURRENT
         CURRENT = self
         install(self.codes)
+        # no cyclic garbage collection while worker threads run: a finaliser of an object left over from an
+        # earlier schedule (a port's __del__ calls close()) would execute monitored lines and touch that
+        # schedule's locks in the middle of this one - at a point that depends on allocation counts
+        import gc
+        gc_was_on = gc.isenabled()
+        gc.disable()
         try:
             for i in range(n):
                 t = threading.Thread(target=worker, args=(i,), daemon=True)
@@ -329,6 +335,9 @@ class Scheduler:
                 t.join(timeout=5.0 if ok else 0.2)
         finally:
             CURRENT = None
+            self.on_block = None          # (a hook usually closes over the program: do not keep a cycle alive)
+            if gc_was_on:
+                gc.enable()
         return self
 
     def trace_key(self):
